@@ -14,6 +14,7 @@ MC = {
     "thorough": [("MC_C01", "MC_C01_thorough.cfg", 16)],
 }
 TRACE = ("Trace_C01", "Trace_C01.cfg")
+THOROUGH_EXTRA_SEEDS = 2
 RULE = ("one case = one dataset (convention, grid shape / mesh, edge-dimension mode) with the complete "
         "wind_index / ravel_index tables over every grid kind plus a margin of out-of-range probes; "
         "structured worlds are emitted by TLC from MC_C01!Worlds, meshes come from the lattice mesh family, "
